@@ -47,6 +47,7 @@ func Run(ctx context.Context, options *Options) error {
 func loadScript(ctx context.Context, options *Options) (*plruntime.Script, error) {
 	var err error
 	var scriptsContent map[string]string
+	scriptName := options.Script
 
 	if options.Workspace != "" {
 		scriptsContent, _, err = engine.ReadPlScriptFromDir(options.Workspace)
@@ -61,16 +62,17 @@ func loadScript(ctx context.Context, options *Options) (*plruntime.Script, error
 		scriptsContent = map[string]string{
 			name: content,
 		}
+		scriptName = name
 	}
 
 	scripts, errs := engine.ParseScript(scriptsContent, funcs.FuncsMap, funcs.FuncsCheckMap)
 	if len(errs) > 0 {
-		if err, ok := errs[options.Script]; ok {
+		if err, ok := errs[scriptName]; ok {
 			return nil, err
 		}
 	}
 
-	script, ok := scripts[options.Script]
+	script, ok := scripts[scriptName]
 	if !ok {
 		l.Debug(scripts)
 		return nil, fmt.Errorf("the specified script %s was not found in the parsed results", options.Script)
